@@ -1,1 +1,1 @@
-import Hive.Proofs.C12aHeapIdx
+import Hive.Proofs.C12aHeapPerm
